@@ -389,15 +389,38 @@ pub fn mode_name(m: HandlerTaskMode) -> &'static str {
 }
 
 /// slog drain that only counts the server's "client disconnected" records.
-struct NoticeDrain(Arc<AtomicUsize>);
+/// The servers' log drain: it notices the "request handling cancelled" records, and - like
+/// the synchronous `Mutex<drain>.fuse()` loggers applications use - it formats every key and
+/// value of every record (the record's own and the logger's) under a lock, so that whatever
+/// the server hands to its logger is really rendered.  Rendering must not fail: with such a
+/// logger a panic in here poisons the lock and takes every later log call, i.e. the server,
+/// with it.
+struct NoticeDrain(Arc<AtomicUsize>, Mutex<String>);
+
+struct RenderAll<'a>(&'a mut String);
+impl slog::Serializer for RenderAll<'_> {
+    fn emit_arguments(&mut self, key: slog::Key, val: &std::fmt::Arguments) -> slog::Result {
+        use std::fmt::Write as _;
+        let _ = write!(self.0, "{}={};", key, val);
+        Ok(())
+    }
+}
 
 impl slog::Drain for NoticeDrain {
     type Ok = ();
     type Err = slog::Never;
-    fn log(&self, record: &slog::Record, _values: &slog::OwnedKVList) -> Result<(), slog::Never> {
+    fn log(&self, record: &slog::Record, values: &slog::OwnedKVList) -> Result<(), slog::Never> {
+        use slog::KV;
         if format!("{}", record.msg()).starts_with("request handling cancelled") {
             self.0.fetch_add(1, Ordering::SeqCst);
         }
+        // (a rendering that panicked has poisoned the lock: the request it belonged to has
+        // already failed and is reported as such; carry on, so that the run ends with the
+        // failing case on record instead of with every later log call panicking)
+        let mut line = self.1.lock().unwrap_or_else(|poisoned| poisoned.into_inner());
+        line.clear();
+        let _ = record.kv().serialize(record, &mut RenderAll(&mut line));
+        let _ = values.serialize(record, &mut RenderAll(&mut line));
         Ok(())
     }
 }
@@ -418,12 +441,13 @@ pub fn start_opts(
     // crowded (many sockets in TIME_WAIT from earlier runs): retry.
     let mut tries = 0;
     loop {
-        let log = slog::Logger::root(NoticeDrain(ctx.noticed.clone()), slog::o!());
+        let log = slog::Logger::root(NoticeDrain(ctx.noticed.clone(), Mutex::new(String::new())), slog::o!());
         let config = ConfigDropshot {
             bind_address: "127.0.0.1:0".parse().unwrap(),
             default_request_body_max_bytes: 1024,
             default_handler_task_mode: mode,
-            log_headers: vec![],
+            // one request header is logged with every record of the request
+            log_headers: vec!["x-trace".to_string()],
         };
         // every other server is configured the way deployments are: from a serialised
         // configuration (written out as JSON and read back), which must say the same
